@@ -430,7 +430,7 @@ func viGuard(fwd bool, view, bounds telem.TimeRange) string {
 
 var viHangBudget atomic.Int64
 
-const viWatchdog = 20 * time.Second
+const viWatchdog = 10 * time.Second
 
 // guarded runs f under a panic guard and a watchdog.
 func viGuarded(f func(progress *atomic.Int64)) (panicked string, hung bool) {
@@ -506,7 +506,7 @@ func (l *viLay) runOne(job viJob, run viRun, emit func(viTrace)) (panics int) {
 		for _, ch := range run.Chans {
 			// A panic inside a unary iterator kills the stream goroutine and leaves the
 			// caller blocked; demonstrate that a bounded number of times only.
-			if panicked[ch] && viHangBudget.Add(1) > 2 {
+			if panicked[ch] && viHangBudget.Add(1) > 1 {
 				continue
 			}
 			db.mu.RLock()
